@@ -37,6 +37,7 @@ Scn(m) ==
       sizes == IF whole THEN <<Len(pay)>> ELSE Cut(Len(pay), m, 20)
   IN [id |-> m, version |-> ver, payload |-> StrOf(pay), sizes |-> sizes, splitU |-> Coin(m, 7),
       echo |-> Below(3, m, 8) = 0,
+      splitD |-> decl /\ Coin(m, 9),                 \* the first chunk ends inside the XML declaration
       \* predicted observables
       result |-> StrOf(<<"P">> \o body \o <<"S">>), failed |-> HasErr(body)]
 
